@@ -146,6 +146,10 @@ func (r Resp) Panicked() bool {
 	return r.Code >= 500 && bytes.Contains(r.Body, []byte("anic"))
 }
 
+// SingleThreaded is set by worker processes that drive the server from one goroutine only; Settle then also waits for
+// runtime-level quiescence (see Quiesce).
+var SingleThreaded bool
+
 // OnResponse, if set, is called for every request made through Do (used by the C20 monitor).
 var OnResponse func(method, url string, body []byte, r Resp)
 
@@ -154,7 +158,8 @@ func Do(method, url string, body []byte) Resp {
 	if !strings.HasPrefix(url, "/") {
 		url = API + url
 	}
-	var rd io.Reader
+	// A real HTTP server never hands a handler a nil Body (an empty one is http.NoBody), so neither does the harness.
+	var rd io.Reader = http.NoBody
 	if body != nil {
 		rd = bytes.NewReader(body)
 	}
@@ -249,6 +254,9 @@ func Merge(parents ...string) (string, error) {
 // Settle waits until the named instances report no pending sync and no update, using DVID's own idle predicates.
 // It polls without a fixed initial sleep and requires the predicate to hold on several consecutive polls.
 func Settle(uuid string, names ...string) {
+	if SingleThreaded {
+		Quiesce()
+	}
 	stable := 0
 	deadline := time.Now().Add(60 * time.Second)
 	for stable < 4 && time.Now().Before(deadline) {
